@@ -169,7 +169,9 @@ theorem m2_fromAngle_orthonormal (θ : ℝ) :
   · simp; linear_combination h
 
 /-- `Basis2::from_angle(t)` is the newtype wrapper `Basis2 { mat: Matrix2::from_angle(t) }`
-(src/rotation.rs); in wrapper form: the transposed basis is a two-sided inverse -/
+(src/rotation.rs); in wrapper form: the transposed basis is a two-sided inverse.  The statement is about the ad-hoc term
+`⟨M2.fromAngle θ⟩`, not about the model's `Basis2.fromAngle` (for that constructor see `basis2_fromAngle_orthonormal'`,
+`Props/C06c.lean`) -/
 theorem basis2_fromAngle_orthonormal (θ : ℝ) :
     Basis2.mul ⟨(M2.fromAngle θ).transpose⟩ ⟨M2.fromAngle θ⟩ = Basis2.one ∧
     Basis2.mul ⟨M2.fromAngle θ⟩ ⟨(M2.fromAngle θ).transpose⟩ = Basis2.one := by
